@@ -407,6 +407,11 @@ def run(tier, pid="C06"):
         "exhaustive over the expression/value spaces of the mt_mc*.cfg configs (bounds in spec/match/*.cfg and "
         "MCMatchers.tla); random for mt_sim.cfg and for the harness-generated rows decided by MatchersTrace.tla"
     )
+    # the stock matchers outside spec/match (doctest, warnings, SamePath/HasPermissions/TarballContains,
+    # MatchesPredicateWithParams) have their own TLA+ semantics in spec/extra (X12): part of "every stock matcher"
+    from .common import run_subcheck
+
+    run_subcheck(rep, "x12", "X12", tier, "x12")
     return rep.finish()
 
 
